@@ -55,3 +55,41 @@ func vh_dispatch() {
 		vreach("runt")
 	}
 }
+
+// ---------- C06: Ethernet framing ----------
+func vh_emit_eth() {
+	mac := tcpip.LinkAddress(vnString("mac", 6))
+	e := &endpoint{hdrSize: 14, addr: mac}
+	n := vnChoice("hdrlen", 2) * 20
+	m := vnChoice("paylen", 3)
+	hdr := buffer.NewPrependable(14 + n)
+	copy(hdr.Prepend(n), vnBytes("nhdr", n))
+	payload := vnBytes("payload", m)
+	var vv buffer.VectorisedView
+	if m > 0 {
+		vv = buffer.View(payload).ToVectorisedView()
+	}
+	r := &stack.Route{RemoteLinkAddress: tcpip.LinkAddress(vnString("dstmac", 6)), LocalLinkAddress: tcpip.LinkAddress(vnString("srcmac", 6))}
+	if vnBool("haslocal") {
+		r.LocalAddress = "\x0a\x00\x00\x01"
+		r.RemoteAddress = "\x0a\x00\x00\x02"
+	}
+	proto := tcpip.NetworkProtocolNumber(vnU16("proto"))
+	err := e.WritePacket(r, hdr, vv, proto)
+	vassert(err == nil && vfdWrites() == 1, "one frame is written to the device")
+	fr := vfdWrite(0)
+	vassert(len(fr) == 14+n+m, "frame = Ethernet header + network header + payload")
+	for i := 0; i < 6; i++ {
+		vassert(fr[i] == r.RemoteLinkAddress[i], "the destination MAC is the one resolved for the next hop")
+		if r.LocalAddress != "" {
+			vassert(fr[6+i] == r.LocalLinkAddress[i], "the source MAC is the route's local link address")
+		} else {
+			vassert(fr[6+i] == mac[i], "without a local address the source MAC is the endpoint's own")
+		}
+	}
+	vassert(uint16(fr[12])<<8|uint16(fr[13]) == uint16(proto), "EtherType = network protocol")
+	for i := 0; i < m; i++ {
+		vassert(fr[14+n+i] == payload[i], "payload follows unchanged")
+	}
+	vreach("eth")
+}
